@@ -122,7 +122,9 @@ Inductive qev :=
 | QAccept (fd : nat)        (* a new connection gets this descriptor number *)
 | QQueue (fd : nat)         (* the handler of the current connection queues a write *)
 | QFlush (fd : nat)         (* the socket accepts everything queued *)
-| QClose (fd : nat).        (* the connection ends: removePeer *)
+| QClose (fd : nat)         (* the connection ends: removePeer *)
+| QLate (fd g : nat).       (* a write made for generation g of the number (a handler answering from a thread of its own, code
+                               that kept the Peer and sends to it) is taken from the writes queue now *)
 
 Record qstate := mkQ {
   q_open : nat -> bool; q_gen : nat -> nat; q_count : nat;
@@ -132,8 +134,13 @@ Definition qinit : qstate := mkQ (fun _ => false) (fun _ => 0) 0 (fun _ => []) [
 
 Definition qupd {A} (f : nat -> A) (k : nat) (v : A) : nat -> A := fun x => if Nat.eqb x k then v else f x.
 
-Definition qstep (erase : bool) (s : qstate) (e : qev) : qstate :=
+(* [ident]: handleWriteQueue compares the id the write carries with the id of the peer that holds the number (fix 0537db4);
+   without it a write was matched by descriptor number only *)
+Definition qstep_gen (erase ident : bool) (s : qstate) (e : qev) : qstate :=
   match e with
+  | QLate fd g => if q_open s fd && (negb ident || Nat.eqb (q_gen s fd) g)
+                  then mkQ (q_open s) (q_gen s) (q_count s) (qupd (q_queue s) fd (q_queue s fd ++ [g])) (q_deliv s)
+                  else s
   | QAccept fd => if q_open s fd then s
                   else mkQ (qupd (q_open s) fd true) (qupd (q_gen s) fd (S (q_count s))) (S (q_count s)) (q_queue s) (q_deliv s)
   | QQueue fd => if q_open s fd then mkQ (q_open s) (q_gen s) (q_count s) (qupd (q_queue s) fd (q_queue s fd ++ [q_gen s fd])) (q_deliv s)
@@ -147,7 +154,9 @@ Definition qstep (erase : bool) (s : qstate) (e : qev) : qstate :=
                        (if erase then qupd (q_queue s) fd [] else q_queue s) (q_deliv s)
                  else s
   end.
+Definition qstep (erase : bool) : qstate -> qev -> qstate := qstep_gen erase true.
 Definition qrun (erase : bool) (h : list qev) : qstate := fold_left (qstep erase) h qinit.
+Definition qrun_gen (erase ident : bool) (h : list qev) : qstate := fold_left (qstep_gen erase ident) h qinit.
 Definition q_stale (s : qstate) : nat := length (filter (fun d => negb (Nat.eqb (fst d) (snd d))) (q_deliv s)).
 
 (* ---- descriptors of queued files (FileBuffer in a write queue) ----
